@@ -70,6 +70,7 @@ class Profile:
     calls_in_for_list: bool = False                 # known finding F-C06-a (ra clobbered inside the for-list body subroutine)
     max_globals: int = 4
     call_heavy: bool = False                        # more nested calls and early returns (C06 / C01 call paths)
+    global_writes: bool = True                      # functions assign module-level variables (`global g`)
     loopctl_heavy: bool = False                     # many break / continue / dead loops (C05 loop-label paths)
     dead_loops: bool = True                         # `while False:` blocks (disabled code)
     named_constants: bool = True                    # module-level single-assignment constants used by name (folded by the transpiler)
@@ -409,6 +410,11 @@ class Gen:
             # a variable holding a compile-time constant is folded into its uses; comparisons of such variables
             # fold to Python booleans (known finding F-C09-a) — constants are used through literals / K-names instead
             e = self.read_expr(sc, 0)
+        if sc.is_func and self.p.global_writes and self.gvars_at_def and r.random() < 0.2:
+            n = r.choice(self.gvars_at_def)
+            self.gvars_multi.add(n)
+            self.feat("assign_global_in_function")
+            return ("gassign", n, e)
         if sc.is_func:
             # local (new or existing) — never a parameter-less global write without `global`
             if sc.locals_ and r.random() < 0.7:
